@@ -2,7 +2,7 @@ import StepupModel.Lemmas.Discipline
 /-!
 # Product rows and their declarations: the state invariant and the structural writes
 
-`Inv X A s`: one row per key; every file row in a product state (PLANNED, BUILT, OUTDATED, VOLATILE)
+`Inv O X A s`: one row per key; every file row in a product state (PLANNED, BUILT, OUTDATED, VOLATILE)
 has a label in `A`; on the keys of `X`, the creator of such a row (when it has one) is a step or a static
 tree, and an UNDECLARED file row is detached and has no creator.  `KeepX X s s'` is what the writes that do
 not declare anything do to the file rows (key and role stay; on `X` the creator is kept or cut and a row
@@ -37,17 +37,17 @@ of an edge into a file). -/
 def OwnerKind (c : Key) : Prop := c.kind = .step ∨ c.kind = .st
 
 /-- The invariant; `X` are the keys on which the creator/detached clauses are claimed, `A` the labels
-that may be in a product state. -/
-structure Inv (X : Key → Prop) (A : String → Prop) (s : KState) : Prop where
+that may be in a product state, `O` the nodes that may own a product. -/
+structure Inv (O : Key → Prop) (X : Key → Prop) (A : String → Prop) (s : KState) : Prop where
   keys : KeysUnique s
   prod : ∀ n ∈ s.nodes, n.key.kind = .file → IsProduct n.fstate → A n.key.label
-  own : ∀ n ∈ s.nodes, n.key.kind = .file → X n.key → IsProduct n.fstate → ∀ c, n.creator = some c → OwnerKind c
+  own : ∀ n ∈ s.nodes, n.key.kind = .file → X n.key → IsProduct n.fstate → ∀ c, n.creator = some c → O c
   und : ∀ n ∈ s.nodes, n.key.kind = .file → X n.key → n.fstate = .undeclared → n.detached = true ∧ n.creator = none
 
 def All (_ : Key) : Prop := True
 
-theorem Inv.mono {X Y : Key → Prop} {A B : String → Prop} {s : KState} (h : Inv X A s)
-    (hY : ∀ k, k.kind = .file → Y k → X k) (hA : ∀ p, A p → B p) : Inv Y B s :=
+theorem Inv.mono {O : Key → Prop} {X Y : Key → Prop} {A B : String → Prop} {s : KState} (h : Inv O X A s)
+    (hY : ∀ k, k.kind = .file → Y k → X k) (hA : ∀ p, A p → B p) : Inv O Y B s :=
   ⟨h.keys, fun n hn hk hp => hA _ (h.prod n hn hk hp), fun n hn hk hy => h.own n hn hk (hY _ hk hy),
     fun n hn hk hy => h.und n hn hk (hY _ hk hy)⟩
 
@@ -66,8 +66,8 @@ def KeepX (X : Key → Prop) (s s' : KState) : Prop :=
 
 theorem KeepX.refl (X : Key → Prop) (s : KState) : KeepX X s s := fun n hn _ => ⟨n, hn, KeepRow.refl X n⟩
 
-theorem Inv.keep {X : Key → Prop} {A : String → Prop} {s s' : KState} (h : Inv X A s) (hr : KeepX X s s')
-    (hk : KeysUnique s') : Inv X A s' := by
+theorem Inv.keep {O : Key → Prop} {X : Key → Prop} {A : String → Prop} {s s' : KState} (h : Inv O X A s) (hr : KeepX X s s')
+    (hk : KeysUnique s') : Inv O X A s' := by
   refine ⟨hk, ?_, ?_, ?_⟩
   · intro n' hn' hkind hp
     obtain ⟨n, hn, h1, h2, _⟩ := hr n' hn' hkind
@@ -128,15 +128,15 @@ theorem keepX_mono {X Y : Key → Prop} {s s' : KState} (h : KeepX X s s') (hY :
   exact ⟨n, hn, h1, h2, fun hy => h3 (hY _ hy)⟩
 
 /-- An operation that is soft in the sense of `Lemmas/DisciplineSoft.lean` preserves the invariant. -/
-theorem Inv.soft {X : Key → Prop} {A : String → Prop} {s s' : KState} (h : Inv X A s) (hr : SoftRel s s') : Inv X A s' :=
+theorem Inv.soft {O : Key → Prop} {X : Key → Prop} {A : String → Prop} {s s' : KState} (h : Inv O X A s) (hr : SoftRel s s') : Inv O X A s' :=
   h.keep (keepX_of_soft X hr) (hr.keysUnique h.keys)
 
-theorem Inv.of_soft {X : Key → Prop} {A : String → Prop} {f : KState → M KState} (hf : ∀ s0, Preserves (SP s0) f) :
-    Preserves (Inv X A) f := by
+theorem Inv.of_soft {O : Key → Prop} {X : Key → Prop} {A : String → Prop} {f : KState → M KState} (hf : ∀ s0, Preserves (SP s0) f) :
+    Preserves (Inv O X A) f := by
   intro s s' hp h
   exact hp.soft (hf s s s' (SP.refl hp.keys) h).2
 
-theorem Inv.nodes {X : Key → Prop} {A : String → Prop} {s s' : KState} (h : Inv X A s) (hn : s'.nodes = s.nodes) : Inv X A s' := by
+theorem Inv.nodes {O : Key → Prop} {X : Key → Prop} {A : String → Prop} {s s' : KState} (h : Inv O X A s) (hn : s'.nodes = s.nodes) : Inv O X A s' := by
   refine h.keep (keepX_of_nodes X hn) ?_
   unfold KeysUnique; rw [hn]; exact h.keys
 
@@ -149,15 +149,15 @@ theorem flagReadySinks_soft' (s : KState) (k : Key) : SoftRel s (s.flagReadySink
 
 /-- `UPDATE node SET detached = ?`: harmless when the flag is raised, or when the row is no file, or
 has a creator. -/
-theorem setDetachedRow_inv {X : Key → Prop} {A : String → Prop} {s : KState} (x : Key) (d : Bool) (h : Inv X A s)
+theorem setDetachedRow_inv {O : Key → Prop} {X : Key → Prop} {A : String → Prop} {s : KState} (x : Key) (d : Bool) (h : Inv O X A s)
     (hx : d = false → ∀ n ∈ s.nodes, n.key = x → n.key.kind = .file → X n.key → n.creator ≠ none) :
-    Inv X A (s.setDetachedRow x d) := by
+    Inv O X A (s.setDetachedRow x d) := by
   unfold KState.setDetachedRow
   cases s.find? x with
   | none => exact h
   | some m =>
     simp only
-    have h1 : Inv X A (s.modify x fun n => { n with detached := d }) := by
+    have h1 : Inv O X A (s.modify x fun n => { n with detached := d }) := by
       refine h.keep (keepX_modify X s x _ (fun _ => rfl) ?_) (keysUnique_modify x _ (fun _ hn => hn) h.keys)
       intro n hn hk hkind
       refine ⟨rfl, rfl, fun hX => ⟨.inl rfl, fun hd => .inr ?_⟩⟩
@@ -192,10 +192,10 @@ theorem setDetachedRow_rows (s : KState) (x : Key) (d : Bool) :
       · exact ⟨h1, h2⟩
     · exact key n' hn'
 
-theorem foldl_setDetachedRow_inv {X : Key → Prop} {A : String → Prop} (d : Bool) (L : List Key) :
-    ∀ s : KState, Inv X A s →
+theorem foldl_setDetachedRow_inv {O : Key → Prop} {X : Key → Prop} {A : String → Prop} (d : Bool) (L : List Key) :
+    ∀ s : KState, Inv O X A s →
       (d = false → ∀ x ∈ L, ∀ n ∈ s.nodes, n.key = x → n.key.kind = .file → X n.key → n.creator ≠ none) →
-      Inv X A (L.foldl (fun s x => s.setDetachedRow x d) s) := by
+      Inv O X A (L.foldl (fun s x => s.setDetachedRow x d) s) := by
   induction L with
   | nil => intro s h _; exact h
   | cons y L ih =>
@@ -228,14 +228,14 @@ theorem descendants_creator (s : KState) (hk : KeysUnique s) (k x : Key) (hx : x
     rw [h1] at h2; exact Option.some.inj h2
   rw [this, hmc]; exact fun h => by cases h
 
-theorem setDetachedRec_inv {X : Key → Prop} {A : String → Prop} {s : KState} (k : Key) (d : Bool) (h : Inv X A s) :
-    Inv X A (s.setDetachedRec k d) := by
+theorem setDetachedRec_inv {O : Key → Prop} {X : Key → Prop} {A : String → Prop} {s : KState} (k : Key) (d : Bool) (h : Inv O X A s) :
+    Inv O X A (s.setDetachedRec k d) := by
   unfold KState.setDetachedRec
   exact foldl_setDetachedRow_inv d _ s h fun _ x hx n hn hnx _ _ => descendants_creator s h.keys k x hx n hn hnx
 
 /-- `UPDATE node SET creator = NULL, detached = 1` -/
-theorem setCreator_none_inv {X : Key → Prop} {A : String → Prop} {s s' : KState} {k : Key} (h : Inv X A s)
-    (hs : s.setCreator k none true = .ok s') : Inv X A s' := by
+theorem setCreator_none_inv {O : Key → Prop} {X : Key → Prop} {A : String → Prop} {s s' : KState} {k : Key} (h : Inv O X A s)
+    (hs : s.setCreator k none true = .ok s') : Inv O X A s' := by
   unfold KState.setCreator at hs
   split at hs
   · simp only [pure, Except.pure, Except.ok.injEq] at hs
@@ -246,8 +246,8 @@ theorem setCreator_none_inv {X : Key → Prop} {A : String → Prop} {s s' : KSt
     exact ⟨rfl, rfl, fun _ => ⟨.inr rfl, fun hd => .inl hd⟩⟩
   · cases hs
 
-theorem detachCore_inv {X : Key → Prop} {A : String → Prop} {s s' : KState} {k : Key} {n : Node} (h : Inv X A s)
-    (hs : s.detachCore k n = .ok s') : Inv X A s' := by
+theorem detachCore_inv {O : Key → Prop} {X : Key → Prop} {A : String → Prop} {s s' : KState} {k : Key} {n : Node} (h : Inv O X A s)
+    (hs : s.detachCore k n = .ok s') : Inv O X A s' := by
   unfold KState.detachCore at hs
   split at hs
   · simp only [bind, Except.bind] at hs
@@ -274,7 +274,7 @@ theorem detachFlags_rel {s s' : KState} {k : Key} (h : s.detachFlags k = .ok s')
   · simp only [pure, Except.pure, Except.ok.injEq] at h; subst h; exact SoftRel.refl _
 
 /-- `Node.detach` (+ `Step.detach`) -/
-theorem detach_inv {X : Key → Prop} {A : String → Prop} (k : Key) : Preserves (Inv X A) (fun s => s.detach k) := by
+theorem detach_inv {O : Key → Prop} {X : Key → Prop} {A : String → Prop} (k : Key) : Preserves (Inv O X A) (fun s => s.detach k) := by
   intro s s' h hs
   replace hs : s.detach k = .ok s' := hs
   unfold KState.detach at hs
@@ -288,20 +288,20 @@ theorem detach_inv {X : Key → Prop} {A : String → Prop} (k : Key) : Preserve
       simp only [h1] at hs
       exact (detachCore_inv h h1).soft (detachFlags_rel hs)
 
-theorem foldlM_detach_inv {X : Key → Prop} {A : String → Prop} (L : List Node) :
-    Preserves (Inv X A) (fun s => L.foldlM (fun st (p : Node) => st.detach p.key) s) := by
+theorem foldlM_detach_inv {O : Key → Prop} {X : Key → Prop} {A : String → Prop} (L : List Node) :
+    Preserves (Inv O X A) (fun s => L.foldlM (fun st (p : Node) => st.detach p.key) s) := by
   intro s s' h hs
-  exact foldlM_mem (fun st => Inv X A st) (fun st (p : Node) => st.detach p.key) L
+  exact foldlM_mem (fun st => Inv O X A st) (fun st (p : Node) => st.detach p.key) L
     (fun st p st' _ hst hd => detach_inv p.key st st' hst hd) s s' h hs
 
 /-- `DELETE FROM dependency` only raises flags on rows. -/
-theorem deleteDeps_inv {X : Key → Prop} {A : String → Prop} {s : KState} (p : Dep → Bool) (h : Inv X A s) :
-    Inv X A (s.deleteDeps p) := by
-  have h0 : Inv X A ({ s with deps := s.deps.filter fun d => !p d } : KState) := h.nodes rfl
+theorem deleteDeps_inv {O : Key → Prop} {X : Key → Prop} {A : String → Prop} {s : KState} (p : Dep → Bool) (h : Inv O X A s) :
+    Inv O X A (s.deleteDeps p) := by
+  have h0 : Inv O X A ({ s with deps := s.deps.filter fun d => !p d } : KState) := h.nodes rfl
   unfold KState.deleteDeps
   exact h0.soft (flagFold_spec _ _).1
 
-theorem insertDep_inv {X : Key → Prop} {A : String → Prop} (a b : Key) : Preserves (Inv X A) (fun s => s.insertDep a b) := by
+theorem insertDep_inv {O : Key → Prop} {X : Key → Prop} {A : String → Prop} (a b : Key) : Preserves (Inv O X A) (fun s => s.insertDep a b) := by
   intro s s' h hs
   replace hs : s.insertDep a b = .ok s' := hs
   unfold KState.insertDep at hs
@@ -312,15 +312,15 @@ theorem insertDep_inv {X : Key → Prop} {A : String → Prop} (a b : Key) : Pre
     · cases hs
     · simp only [pure, Except.pure, Except.ok.injEq] at hs
       subst hs
-      have h0 : Inv X A ({ s with deps := s.deps ++ [({ src := a, snk := b } : Dep)] } : KState) := h.nodes rfl
+      have h0 : Inv O X A ({ s with deps := s.deps ++ [({ src := a, snk := b } : Dep)] } : KState) := h.nodes rfl
       refine h0.soft ?_
       unfold KState.flagDepEndpoints
       exact softRel_modifyWhere _ _ (softFn_flag (fun _ => rfl) (fun _ => rfl) (fun _ => rfl) (fun _ => rfl) (fun _ => rfl))
 
-theorem lostProduct_inv {X : Key → Prop} {A : String → Prop} (old : Option Key) :
-    Preserves (Inv X A) (fun s => s.lostProduct old) := fun s s' h hs => h.soft (lostProduct_rel hs)
+theorem lostProduct_inv {O : Key → Prop} {X : Key → Prop} {A : String → Prop} (old : Option Key) :
+    Preserves (Inv O X A) (fun s => s.lostProduct old) := fun s s' h hs => h.soft (lostProduct_rel hs)
 
-theorem flagIfStep_inv {X : Key → Prop} {A : String → Prop} (k : Key) : Preserves (Inv X A) (fun s => s.flagIfStep k) := by
+theorem flagIfStep_inv {O : Key → Prop} {X : Key → Prop} {A : String → Prop} (k : Key) : Preserves (Inv O X A) (fun s => s.flagIfStep k) := by
   intro s s' h hs
   replace hs : s.flagIfStep k = .ok s' := hs
   unfold KState.flagIfStep at hs
@@ -330,8 +330,8 @@ theorem flagIfStep_inv {X : Key → Prop} {A : String → Prop} (k : Key) : Pres
 
 /-- `UPDATE node SET creator = ?, detached = ?` on a row whose file clauses are not claimed (no file, or
 exempted). -/
-theorem setCreator_inv {X : Key → Prop} {A : String → Prop} {s s' : KState} {k : Key} {c : Option Key} {d : Bool}
-    (h : Inv X A s) (hk : k.kind = .file → ¬ X k) (hs : s.setCreator k c d = .ok s') : Inv X A s' := by
+theorem setCreator_inv {O : Key → Prop} {X : Key → Prop} {A : String → Prop} {s s' : KState} {k : Key} {c : Option Key} {d : Bool}
+    (h : Inv O X A s) (hk : k.kind = .file → ¬ X k) (hs : s.setCreator k c d = .ok s') : Inv O X A s' := by
   unfold KState.setCreator at hs
   split at hs
   · simp only [pure, Except.pure, Except.ok.injEq] at hs
@@ -343,8 +343,8 @@ theorem setCreator_inv {X : Key → Prop} {A : String → Prop} {s s' : KState} 
   · cases hs
 
 /-- `Node.reattach` of a node that is not a file (a step, in `define_step`). -/
-theorem reattach_inv {X : Key → Prop} {A : String → Prop} (k c : Key) (hk : k.kind ≠ .file) :
-    Preserves (Inv X A) (fun s => s.reattach k c) := by
+theorem reattach_inv {O : Key → Prop} {X : Key → Prop} {A : String → Prop} (k c : Key) (hk : k.kind ≠ .file) :
+    Preserves (Inv O X A) (fun s => s.reattach k c) := by
   intro s s' h hs
   replace hs : s.reattach k c = .ok s' := hs
   unfold KState.reattach at hs
